@@ -296,7 +296,7 @@ func c08R2(p *engine.Prog, r *engine.Report, vsc *ssa.Function) {
 	nS := 0
 	for _, ret := range successReturns(vsc) {
 		nS++
-		if !engine.OnlyThroughPass(vsc, ret.Block(), gTip) {
+		if !engine.OnlyThroughPassRet(vsc, ret, gTip) {
 			okTip = false
 		}
 	}
@@ -392,7 +392,7 @@ func c08R3(p *engine.Prog, r *engine.Report, af *ssa.Function) {
 		}
 		okA := len(asr) == 1 && engine.Origin(asr[0].Call.Args[1]) == ssa.Value(rt.Params[1])
 		for _, ret := range successReturns(rt) {
-			if len(asr) == 1 && !engine.OnlyThroughPass(rt, ret.Block(), nilErrGuards(rt, asr[0])) {
+			if len(asr) == 1 && !engine.OnlyThroughPassRet(rt, ret, nilErrGuards(rt, asr[0])) {
 				okA = false
 			}
 		}
